@@ -123,18 +123,23 @@ Cells == DOMAIN Guard
 (* Helpers: functions that are not part of the API.  needs = the mutex the  *)
 (* code documents / relies on being held by the caller ("none" otherwise).  *)
 (* These are the choke points of the guard probes (verifGuard in /repo,     *)
-(* fixes/hook-c13-guard-probes.diff); probe = name of that probe point.     *)
+(* fixes/hook-c13-guard-probes.addonly.diff); probe = name of the probe point,  *)
+(* "-" where there is none.                                                 *)
 (***************************************************************************)
 H(needs, probe, steps) == [needs |-> needs, probe |-> probe, s |-> steps]
 
 Helper ==
-  \* tracker.go:16-19,31-47,64-106 - the three queueLimitTracker implementations
-     "qtracker.len"    :> H("queue.mu", "pubsub.tracker.len",    <<R("queue.tracker")>>)
-  @@ "qtracker.cap"    :> H("queue.mu", "pubsub.tracker.cap",    <<R("queue.tracker")>>)
+  \* tracker.go:16-19,31-47,64-106 - the three queueLimitTracker implementations.
+  \* len and cap have NO PROBE POINT (probe "-"): they are one-line functions in all three implementations and the
+  \* hook patch must be add-only (it may not rewrite a line); the unlimited tracker's add is a one-liner too, so
+  \* tracker.add is probed only on the limit / capacity trackers.  HelperGuard still checks them in the model and the
+  \* race observer still covers them on the code.
+     "qtracker.len"    :> H("queue.mu", "-",    <<R("queue.tracker")>>)
+  @@ "qtracker.cap"    :> H("queue.mu", "-",    <<R("queue.tracker")>>)
   @@ "qtracker.add"    :> H("queue.mu", "pubsub.tracker.add",    <<R("queue.tracker"), W("queue.tracker")>>)
   @@ "qtracker.remove" :> H("queue.mu", "pubsub.tracker.remove", <<R("queue.tracker"), W("queue.tracker")>>)
-  @@ "dtracker.len"    :> H("deque.mtx", "pubsub.tracker.len",    <<R("deque.tracker")>>)
-  @@ "dtracker.cap"    :> H("deque.mtx", "pubsub.tracker.cap",    <<R("deque.tracker")>>)
+  @@ "dtracker.len"    :> H("deque.mtx", "-",    <<R("deque.tracker")>>)
+  @@ "dtracker.cap"    :> H("deque.mtx", "-",    <<R("deque.tracker")>>)
   @@ "dtracker.add"    :> H("deque.mtx", "pubsub.tracker.add",    <<R("deque.tracker"), W("deque.tracker")>>)
   @@ "dtracker.remove" :> H("deque.mtx", "pubsub.tracker.remove", <<R("deque.tracker"), W("deque.tracker")>>)
   \* queue.go:109 doAdd
@@ -179,17 +184,17 @@ Helper ==
   @@ "Pool.init" :> H("none", "-", <<OB("pool.once"), W("pool.fields"), W("pool.hook"), OE("pool.once")>>)
   \* dt.Set.lock set.go:116: load the mutex, lock it, lazily make the map.  (Unlock is s.with, set.go:115)
   @@ "Set.lock"  :> H("none", "-", <<R("set.mtxp"), L("set.mtx"), R("set.hash"), C("Set.init")>>)
-  @@ "Set.init"  :> H("set.mtx", "dt.Set.init", <<W("set.hash")>>)                    \* set.go:114
+  @@ "Set.init"  :> H("set.mtx", "-", <<W("set.hash")>>)                    \* set.go:114  no probe point: one-line function, add-only hook rule
   @@ "oSet.lock" :> H("none", "-", <<R("oset.mtxp"), L("oset.mtx"), R("oset.hash"), C("oSet.init")>>)
-  @@ "oSet.init" :> H("oset.mtx", "dt.Set.init", <<W("oset.hash")>>)
+  @@ "oSet.init" :> H("oset.mtx", "-", <<W("oset.hash")>>)
   \* set.go:92 forceSetupOrdered
   @@ "Set.forceSetupOrdered" :> H("set.mtx", "dt.Set.forceSetupOrdered",
         <<R("set.list"), W("set.list"), R("set.hash"), W("set.hash")>>)
   @@ "oSet.forceSetupOrdered" :> H("oset.mtx", "dt.Set.forceSetupOrdered",
         <<R("oset.list"), W("oset.list"), R("oset.hash"), W("oset.hash")>>)
-  \* set.go:112 isOrdered, set.go:184 unsafeIterator
-  @@ "Set.isOrdered"  :> H("set.mtx",  "dt.Set.isOrdered", <<R("set.list")>>)
-  @@ "oSet.isOrdered" :> H("oset.mtx", "dt.Set.isOrdered", <<R("oset.list")>>)
+  \* set.go:112 isOrdered (no probe point: one-line function, add-only hook rule), set.go:184 unsafeIterator
+  @@ "Set.isOrdered"  :> H("set.mtx",  "-", <<R("set.list")>>)
+  @@ "oSet.isOrdered" :> H("oset.mtx", "-", <<R("oset.list")>>)
   @@ "Set.unsafeIterator" :> H("set.mtx", "dt.Set.unsafeIterator", <<R("set.list"), R("set.hash")>>)
   \* limitExec process.go:403-424: fast path without the mutex once the counter has reached the limit
   @@ "limitExec()" :> H("none", "-",
@@ -558,8 +563,8 @@ IdxOf == [c \in Comps |-> [m \in Public(c) |-> CHOOSE i \in DOMAIN PubSeqOf[c] :
 \* unordered pairs (m1 = m2 included): one orientation each
 UPairsOf(c) == {p \in (Public(c) \X Public(c)) : IdxOf[c][p[1]] <= IdxOf[c][p[2]] /\ Conflict(p[1], p[2])}
 
-\* (public method, probe point) for every "caller must hold the lock" helper on the method's path
-ChokePairs(c) == UNION {{<<m, Probe(e.a)>> : e \in {x \in Range(FlatOf[m]) \cup Range(FlatAlt[m]) : x.k = "E" /\ Needs(x.a) # "none"}} : m \in Public(c)}
+\* (public method, probe point) for every "caller must hold the lock" helper on the method's path that has a probe point
+ChokePairs(c) == UNION {{<<m, Probe(e.a)>> : e \in {x \in Range(FlatOf[m]) \cup Range(FlatAlt[m]) : x.k = "E" /\ Needs(x.a) # "none" /\ Probe(x.a) # "-"}} : m \in Public(c)}
 
 Obligations(c) ==
   [comp     |-> c,
